@@ -18,6 +18,7 @@ from pathlib import Path
 from check import Result
 from props import c04
 from props.c04 import canonj, canon
+from vlib import dtcodec, gen as vgen
 
 META = {
     'level_text': 'Theorems for all well-formed nodes and all oracles: describe_lists_exported (the report lists exactly the '
@@ -37,13 +38,23 @@ META = {
                   'mixins; derived by the model from the MRO given as data), auto_props_ignore_cfg / report_class_props / class_props_cfg_independent (Module.__init__ applies the '
                   'configuration first and assigns implementation / interface_classes / features afterwards: for EVERY configuration the report states the interface class, '
                   'features and implementation of the implementing class), cfg_prop_applied (all other declared module properties follow the configuration), table fact module_decls_auto, '
-                  'finish_constRO / constRO_of_finish (readonly / constant of a parameter derived from class + configuration + Parameter.finish: a constant parameter is read-only by construction).  '
-                  'Tied to secnode.py / params.py / modulebase.py / properties.py / dispatcher.py by correspondence runs (model report = real report, the module property lists DERIVED from '
-                  'class + configuration; model step = real step for every request of the sweep) and report-vs-behaviour monitors on generated nodes and on the shipped configurations.',
+                  'finish_constRO / constRO_of_finish (readonly / constant of a parameter derived from class + configuration + Parameter.finish: a constant parameter is read-only by construction), '
+                  'change_refused_of_datatype + model_change_probe_ok with the new clause (a payload the described datainfo of a writable parameter excludes is refused and nothing is written), '
+                  'and, for parameters whose datatype is a tree of the datatype model (Node/DescribeDT: ONE tree gives the datainfo of the report and the validation of requests; the instance '
+                  'datatype = copy of the class datatype + the limits of the configuration): derived_datainfo_equiv_partial (AcceptLaw PROVED from C03 rebuild_equiv for every well-formed tree with on-grid '
+                  'scaled limits: the client rebuilt from the exported datainfo answers every payload as the node does), cfg_limit_stored / instance_limit_from_cfg (a configured limit is stored as given), '
+                  'configured_scaled_described (a scaled limit set by the configuration on the grid: the integer the report states denotes exactly that limit, whichever side of the whole number the float '
+                  'quotient limit/scale lands on, and client = node on every payload), described_datainfo_equiv_derived + model_change_probe_ok_derived (node level, no oracle assumption), '
+                  'derived_datainfo_equiv_fails (counterexample for off-grid configured limits: recorded finding).  '
+                  'Tied to secnode.py / params.py / modulebase.py / properties.py / dispatcher.py / datatypes.py by correspondence runs (model report = real report, the module property lists DERIVED from '
+                  'class + configuration; model step = real step for every request of the sweep; datatype stream: instance datatype DERIVED from class datatype + configured limits, described datainfo DERIVED from the '
+                  'instance datatype, verdicts of node datatype and rebuilt client datatype on the boundary catalogue DERIVED by the model) and report-vs-behaviour monitors on generated nodes and on the shipped configurations '
+                  '(boundary catalogue of every described datainfo sent as change requests and judged against the client datatype rebuilt from the report).',
     'level_note': 'Trusted: Lean kernel + axioms; the order test of a LimitsType pair is classified with the limit checks (not '
                   'expressible in the described tuple datainfo); the datatype layer is an oracle (C01-C03): emits_importable, '
                   'described_datainfo_equiv and command_datainfo_equiv are proved relative to explicit oracle laws (about the datatypes of the node) and the corresponding facts are tested '
-                  'on the implementation with the real client datatypes; property lists of ACCESSIBLES (description, group, visibility) are data taken from the real objects, '
+                  'on the implementation with the real client datatypes (for described_datainfo_equiv the law is discharged for the model datatypes under LawfulFloatOps / CompatLaws of the float carrier, proved for Rat, '
+                  'assumed for binary64); recorded finding: a scaled limit the configuration puts off the grid (node and described datainfo differ on the payload one step outside the described range); property lists of ACCESSIBLES (description, group, visibility) are data taken from the real objects, '
                   'those of MODULES are derived by the model from the declared properties of the class, class-level values and the configuration; strict JSON: the wire text of the '
                   'real report must parse with Lean\'s JSON parser (the model has no serialiser).',
     'trusted': [
@@ -54,12 +65,15 @@ META = {
         'shipped configurations: driver calls are not observed there (only replies and subscriptions); they are probed only after the generated nodes showed no violation',
     ],
     'modelled_not_verified': [
+        'configuration keys of a datatype other than min / max (unit, fmtstr, resolutions, lengths): generated and judged by the monitors, but they reach the model through the tree read from the real object',
+        'datatype stream: LimitsType / StatusType / TextType parameters are left out (not one of the ten kinds of the datatype model)',
         'the MRO itself (Python C3 linearisation) and the qualified class name are data from the real class',
         'validation of a configured property value by the property\'s datatype (a refused value produces no node)',
         'main-unit substitution ($) — the datainfo is taken after configuration',
         'json.dumps of the report (the text the real node produces is parsed in Lean; the model does not serialise)',
     ],
-    'assumptions': ['Node.WF: distinct module names, distinct wire names per module, predefined names used for their kind',
+    'assumptions': ['derived_datainfo_equiv_partial / configured_scaled_described: LawfulFloatOps + CompatLaws of the float carrier (C03), scaled limits on the grid (Exportable)',
+                    'Node.WF: distinct module names, distinct wire names per module, predefined names used for their kind',
                     'model_change_probe_ok: NoForeignReadOnly (datatypes, hooks and drivers do not use the error class ReadOnly for their own refusals)',
                     'report_class_props: AutoDecls (the class declares implementation / interface_classes / features as exported properties under these names; '
                     'proved for frappy\'s Module from the generated table)'],
@@ -102,6 +116,126 @@ def subs_state(node):
 FALSY = [0, 0.0, False, '', [], {}]      # JSON values that are not null but false in Python
 
 
+# ----------------------------------------------------------------------------------------
+# boundary catalogue of a described datainfo ("payloads from the datatype boundary catalogues")
+# ----------------------------------------------------------------------------------------
+def quotient_class(k, scale):
+    """how the float quotient (k*scale)/scale relates to the grid index k: exact / below / above (the same classes as
+    harness/props/c03.py uses for its scaled leaves); None when k*scale is not a grid point in the strict sense"""
+    try:
+        x = k * scale
+        q = x / scale
+        if x in (float('inf'), float('-inf')) or int(round(q)) != k or float(int(round(q)) * scale) != x:
+            return None
+    except (OverflowError, ValueError):
+        return None
+    return 'exact' if q == k else 'below' if q < k else 'above'
+
+
+def strict_json(v):
+    """can a client put this value on the wire at all (JSON without NaN / Infinity)"""
+    try:
+        json.dumps(v, allow_nan=False)
+        return True
+    except (ValueError, TypeError):
+        return False
+
+
+def _tree(dt):
+    """datatype -> tree of vlib.dtcodec (LimitsType / StatusType as the tuples they are described as)"""
+    from frappy.datatypes import TupleOf
+    try:
+        return dtcodec.dt_to_tree(dt)
+    except ValueError:
+        if isinstance(dt, TupleOf):
+            try:
+                return {'t': 'tuple', 'elems': [_tree(m) for m in dt.members]}
+            except Exception:
+                return None
+        return None
+    except Exception:
+        return None
+
+
+def _leaf_boundaries(rng, lt):
+    """wire values at and around every limit a leaf states; the ones nearest to the limits first"""
+    t = lt['t']
+    if t == 'scaled':
+        kb = vgen.grid_bounds(lt)
+        near = [] if kb is None else [kb[0] - 1, kb[1] + 1, kb[0], kb[1], kb[0] + 1, kb[1] - 1]
+        return near, [x for x in vgen.boundary_wire_ints(lt) if x not in near]
+    if t == 'int':
+        lo, hi = lt['min'], lt['max']
+        near = [lo - 1, hi + 1, lo, hi, lo + 1, hi - 1]
+        return near, [float(lo), float(hi), lo - 0.5, hi + 0.5, float(hi) + 1.0, float(lo) - 1.0, lo - 2, hi + 2]
+    if t == 'double':
+        near = []
+        for lim, sign in ((vgen._f(lt['min']), -1), (vgen._f(lt['max']), 1)):
+            prec = max(abs(lim * vgen._f(lt['rr'])), vgen._f(lt['ar']))       # the tolerance band of FloatRange.validate
+            near += [lim, lim + sign * prec * 0.5, lim + sign * prec * 2, lim + sign * 1.0]
+        nums = [x for x in vgen.boundary_numbers(rng, lt) if isinstance(x, (int, float)) and not isinstance(x, bool)]
+        return near, [x for x in nums if abs(x) < 1e300]
+    if t in ('string', 'blob'):
+        groups = vgen.length_variants(rng, lt, True, grouped=True)
+        return groups[0], [x for g in groups[1:] for x in g]
+    if t == 'enum':
+        vals = [v for _, v in lt['members']]
+        return [min(vals) - 1, max(vals) + 1], vals + [n for n, _ in lt['members']] + ['nope', 1.0, 0.5]
+    if t == 'bool':
+        return [2, -1], [True, False, 0, 1, 1.0, 'true']
+    return [], []
+
+
+def boundary_catalogue(rng, trees, near_cap, far_cap):
+    """wire payloads around the limits of the given datatype trees (the CLIENT datatype rebuilt from the described
+    datainfo and the node's own datatype): for every leaf of a valid value the values at / next to each of its limits,
+    wrong lengths and arities of every container.  -> list of payloads (JSON values), the `near` ones (limit, limit +- 1
+    step) sampled to near_cap, the others to far_cap"""
+    near, far = [], []
+    for tree in trees:
+        if tree is None:
+            continue
+        try:
+            v = vgen.gen_valid(rng, tree)
+            if v is None:
+                continue
+            wire = json.loads(json.dumps(vgen.to_wire(rng, tree, v)))
+        except Exception:
+            continue
+        kinds = ('double', 'int', 'scaled', 'string', 'blob', 'enum', 'bool')
+        for path, lt in vgen.leaf_paths(tree, wire, kinds):
+            a, b = _leaf_boundaries(rng, lt)
+            near += [vgen.subst(wire, path, x) for x in a]
+            far += [vgen.subst(wire, path, x) for x in b]
+        try:
+            far += vgen.shape_variants(rng, tree, wire)
+        except Exception:
+            pass
+        far.append(wire)
+    near = [x for x in near if strict_json(x)]
+    far = [x for x in far if strict_json(x)]
+    if len(near) > near_cap:
+        near = rng.sample(near, near_cap)
+    if len(far) > far_cap:
+        far = rng.sample(far, far_cap)
+    return near + far
+
+
+def client_datatype(di, name):
+    """the datatype a client builds from a described datainfo (None when get_datatype refuses it)"""
+    from frappy.datatypes import get_datatype
+    try:
+        return get_datatype(json.loads(json.dumps(di)), name)
+    except Exception:
+        return None
+
+
+def client_accepts(cdt, payload):
+    """does the client datatype import and validate the payload (JSON round trip first: what arrives is JSON)"""
+    value = json.loads(json.dumps(payload))
+    return c04.oracle_call(lambda: cdt.validate(cdt.import_value(value)))[0] == 'ok'
+
+
 def do_payloads(rng, kind, argspec):
     """payloads of the `do` requests aimed at one name: for a command no payload, an 'empty' JSON value, a junk value and
     (where the generator knows the argument datatype) a valid one and one from the boundary catalogue"""
@@ -113,7 +247,7 @@ def do_payloads(rng, kind, argspec):
     return out
 
 
-def sweep_steps(rng, node, nodespec):
+def sweep_steps(rng, node, nodespec, cats=None, nchange=0):
     """requests at every described and undescribed name of the node"""
     from frappy.params import Parameter
     idx = {(m, a): (kind, spec) for m, a, kind, spec, _ in (c04.spec_index(nodespec) if nodespec else [])}
@@ -144,6 +278,13 @@ def sweep_steps(rng, node, nodespec):
                                       'seed': rng.randrange(1 << 30)})
                 acts.append((mname, name))
         acts.append((mname, None))
+    # the boundary catalogue of every described datainfo, sent as `change` requests (a parameter described read-only must
+    # refuse them all; for a writable one the described datainfo predicts which are refused)
+    for (mname, aname), (cdt, payloads) in (cats or {}).items():
+        pobj = node.secnode.modules[mname].parameters.get(node.secnode.modules[mname].accessiblename2attr.get(aname))
+        for data in payloads[:nchange if pobj is not None and not pobj.readonly else 2]:
+            steps.append({'kind': 'change', 'spec': '%s:%s' % (mname, aname), 'data': data,
+                          'script': rng.choice(['none', 'none', 'value_valid']), 'seed': rng.randrange(1 << 30)})
     # faults inside the module: it assigns values its own datatype refuses (wrong kind, out of range, too long, NaN),
     # then a client reads the parameter (and the snapshot of a later `activate` is judged as well)
     if nodespec is not None:
@@ -235,6 +376,105 @@ def generated_cfgs(nodespec):
     return cfgs
 
 
+def param_catalogues(rng, node, desc, near_cap, far_cap):
+    """(module, wire name) -> (client datatype, boundary payloads) for every described parameter: the catalogue is drawn
+    from the limits the DESCRIBED datainfo states and from those of the node's own datatype (they should be the same)"""
+    out = {}
+    for mname, md in desc['modules'].items():
+        modobj = node.secnode.modules[mname]
+        for aname, ad in md['accessibles'].items():
+            di = ad.get('datainfo')
+            if isinstance(di, dict) and di.get('type') == 'command':
+                continue
+            pobj = modobj.parameters.get(modobj.accessiblename2attr.get(aname))
+            if pobj is None:
+                continue
+            cdt = client_datatype(di, aname)
+            trees = [_tree(cdt) if cdt is not None else None, _tree(pobj.datatype)]
+            if trees[0] == trees[1]:
+                trees = trees[:1]
+            out[(mname, aname)] = (cdt, boundary_catalogue(rng, trees, near_cap, far_cap))
+    return out
+
+
+def _has_cls(tree):
+    if isinstance(tree, dict):
+        return 'cls' in tree or any(_has_cls(v) for v in tree.values())
+    if isinstance(tree, list):
+        return any(_has_cls(v) for v in tree)
+    return False
+
+
+def _dt_class(func):
+    """outcome class of a datatype call, as the model names it"""
+    from frappy.errors import BadValueError
+    try:
+        func()
+        return 'ok'
+    except BadValueError as e:
+        return type(e).__name__
+    except Exception as e:
+        return type(e).__name__
+
+
+def datatype_cases(node, desc, cats, cfgs, generated):
+    """for every described parameter whose datatype is one of the ten SECoP kinds: the datatype of the class, the limits
+    the configuration sets, the datatype object of the instance, the described datainfo and the boundary payloads with the
+    verdicts of the node's own datatype and of the client datatype — for the model (Node/DescribeDT) to derive all of it"""
+    from vlib import dicodec
+    out = []
+    for (mname, aname), (cdt, payloads) in cats.items():
+        modobj = node.secnode.modules[mname]
+        attr = modobj.accessiblename2attr.get(aname)
+        pobj = modobj.parameters.get(attr)
+        try:
+            inst = dicodec.dt_to_di(pobj.datatype)
+        except Exception:
+            continue
+        if _has_cls(inst) or cdt is None:
+            continue
+        mycls, = type(modobj).__bases__
+        cls_p = mycls.accessibles.get(attr)
+        acfg = (cfgs or {}).get(mname, {}).get(attr)
+        cls = cfg = None
+        if generated and cls_p is not None and getattr(cls_p, 'datatype', None) is not None and \
+                (acfg is None or isinstance(acfg, dict)):
+            dtkeys = [k for k in (acfg or {}) if k not in cls_p.propertyDict]
+            if all(k in ('min', 'max') for k in dtkeys):
+                try:
+                    cls = dicodec.dt_to_di(cls_p.datatype)
+                    cfg = [[k, dtcodec.py_to_json(acfg[k])] for k in dtkeys]
+                except Exception:
+                    cls = cfg = None
+                if cls is not None and _has_cls(cls):
+                    cls = cfg = None
+        probes = []
+        for payload in payloads:
+            value = json.loads(json.dumps(payload))
+            if not dtcodec.encodable(value):
+                continue
+            probes.append({'payload': dtcodec.py_to_json(value),
+                           'node': _dt_class(lambda: pobj.datatype.validate(pobj.datatype.import_value(value))),
+                           'client': _dt_class(lambda: cdt.validate(cdt.import_value(value)))})
+        described = json.loads(json.dumps(desc['modules'][mname]['accessibles'][aname]['datainfo']))
+        out.append({'m': mname, 'a': aname, 'cls': cls, 'cfg': cfg or [], 'inst': inst,
+                    'described': dtcodec.py_to_json(described), 'probes': probes})
+    return out
+
+
+def change_client_verdicts(cats, steps, rec):
+    """for every `change` aimed at a described parameter: does the datatype a client rebuilds from the described datainfo
+    import + validate the payload?  (computed by the real datatype code; judged in Lean against what the node did)"""
+    for st, out in zip(steps, rec['steps']):
+        if st['kind'] != 'change' or not st['spec']:
+            continue
+        m, _, a = st['spec'].partition(':')
+        cat = cats.get((m, a or 'target'))
+        if cat is None:
+            continue
+        out['client'] = cat[0] is not None and client_accepts(cat[0], st['data'])
+
+
 def do_client_verdicts(desc, steps, rec):
     """for every `do` with a payload aimed at a command described WITH an argument: does the argument datatype a client
     rebuilds from the described datainfo import + validate the payload?  (computed by the real datatype code; judged in Lean)"""
@@ -256,7 +496,7 @@ def do_client_verdicts(desc, steps, rec):
         out['client'] = c04.oracle_call(lambda: arg.validate(arg.import_value(payload)))[0] == 'ok'
 
 
-def client_verdicts(rng, node, desc, nodespec, rec):
+def client_verdicts(rng, node, desc, nodespec, rec, cats=None):
     """datainfo checks and import checks, computed with the real datatype code on both sides"""
     from frappy.datatypes import get_datatype
     dichecks, imports = [], []
@@ -279,8 +519,10 @@ def client_verdicts(rng, node, desc, nodespec, rec):
                 continue
             clients[(mname, aname)] = cdt
             dtspec = idx.get((mname, attr))
-            for _ in range(4 if dtspec else 1):
-                payload = c04.gen_payload(rng, dtspec)[0]
+            # payloads: generated ones (mostly valid) + the boundary catalogue of the described datainfo
+            payloads = [c04.gen_payload(rng, dtspec)[0] for _ in range(4 if dtspec else 1)]
+            payloads += (cats or {}).get((mname, aname), (None, []))[1]
+            for payload in payloads:
                 cl = c04.oracle_call(lambda: cdt.validate(cdt.import_value(payload)))[0] == 'ok'
                 # the node's verdict as far as the described datainfo can express it (LimitsType: the tuple part;
                 # the order test of the pair belongs to the limit checks, see design_notes/C06.md)
@@ -334,12 +576,15 @@ def report_text(desc):
         return None
 
 
-def run_node(rng, node, box, nodespec, classes, cfgs=None):
+def run_node(rng, node, box, nodespec, classes, cfgs=None, big=False):
     """-> dict for the driver, or {'errors': ...}"""
     desc1 = node.describe()
     strict = report_text(desc1)
     rep1 = report_json(desc1)
-    steps, acts = sweep_steps(rng, node, nodespec)
+    # boundary catalogues of the described datainfos: all of them for the datainfo checks (datatype against datatype),
+    # the first ones of each also as change requests (described datainfo against what the node does)
+    cats = param_catalogues(random.Random(rng.randrange(1 << 30)), node, desc1, 6, 4 if not big else 6)
+    steps, acts = sweep_steps(rng, node, nodespec, cats, 5)
     rec = None
     if nodespec is not None:
         rec = run_steps_on(node, box, nodespec, classes, steps)
@@ -347,6 +592,7 @@ def run_node(rng, node, box, nodespec, classes, cfgs=None):
         rec, steps = run_steps_plain(node, steps)
     add_inits(node, rec, generated_cfgs(nodespec) if nodespec is not None else (cfgs or {}))
     do_client_verdicts(desc1, steps, rec)
+    change_client_verdicts(cats, steps, rec)
     activates = []
     for m, a in acts:
         conn = node.connect()
@@ -358,12 +604,13 @@ def run_node(rng, node, box, nodespec, classes, cfgs=None):
                           if reply[0].startswith('error_') else ['done', None], 'subsChanged': before != after,
                           'pyclass': reply[2][1] if reply[0].startswith('error_') else None})
         node.disconnect(conn)
-    dichecks, imports = client_verdicts(rng, node, desc1, nodespec, rec)
+    dichecks, imports = client_verdicts(rng, node, desc1, nodespec, rec, cats)
     desc2 = node.describe()
     classes = [{'m': mname, 'ic': list(md.get('interface_classes', [])), 'features': list(md.get('features', [])),
                 'impl': md.get('implementation')}
                for mname, md in desc1['modules'].items()]
-    return {'rec': rec, 'generated': nodespec is not None, 'classes': classes, 'report1': rep1, 'report2': report_json(desc2), 'activates': activates,
+    dtcases = datatype_cases(node, desc1, cats, generated_cfgs(nodespec) if nodespec is not None else None, nodespec is not None)
+    return {'rec': rec, 'generated': nodespec is not None, 'dtcases': dtcases, 'classes': classes, 'report1': rep1, 'report2': report_json(desc2), 'activates': activates,
             'dichecks': dichecks, 'imports': imports, 'strict': strict}
 
 
@@ -471,11 +718,14 @@ def to_requests(data):
     base = {'p': PID, 'node': rec['node'], 'oracle': rec['oracle']}
     return [dict(base, k='describe', steps=[{'req': s['req'], 'drv': s['drv']} for s in rec['steps']] if data.get('generated') else []),
             dict(base, k='judge', text=data['strict'], report1=data['report1'], report2=data['report2'], classes=data['classes'],
-                 steps=[{'req': s['req'], 'obs': s['obs'], 'client': s.get('client', False)} for s in rec['steps']],
+                 steps=[{'req': s['req'], 'obs': s['obs'], 'client': s.get('client')} for s in rec['steps']],
                  activates=[{'m': a['m'], 'a': a['a'], 'reply': a['reply'], 'subsChanged': a['subsChanged']}
                             for a in data['activates'] if not a['bare']],
                  dichecks=[{'m': d['m'], 'a': d['a'], 'client': d['client'], 'node': d['node']} for d in data['dichecks']],
-                 imports=[{'m': d['m'], 'a': d['a'], 'ok': d['ok']} for d in data['imports']])]
+                 imports=[{'m': d['m'], 'a': d['a'], 'ok': d['ok']} for d in data['imports']],
+                 trees=[{'m': c['m'], 'a': c['a'], 'inst': c['inst']} for c in data.get('dtcases', [])]),
+            {'p': PID, 'k': 'datatypes', 'params': [{'cls': c['cls'], 'cfg': c['cfg'], 'inst': c['inst'], 'described': c['described'],
+                                                      'probes': [p['payload'] for p in c['probes']]} for c in data.get('dtcases', [])]}]
 
 
 # module properties a configuration may give (modulebase.py: "only the properties predefined here are allowed to be set in
@@ -502,21 +752,135 @@ def gen_module_props(rng, nodespec):
         for key in rng.sample(sorted(MODULE_PROP_CFG), rng.randint(1, 3)):
             ms['cfg'][key] = {'value': rng.choice(MODULE_PROP_CFG[key])}
     # configuration entries for PARAMETER properties that decide what the report says and how the node behaves:
-    # a constant given in the configuration (makes the parameter read-only), a narrower range (changes the datainfo)
+    # a constant given in the configuration (makes the parameter read-only) and DATATYPE properties (Parameter.setProperty
+    # hands every key that is not a parameter property to the datatype: limits, lengths, unit, resolution) - they change
+    # the described datainfo and the validation of the node together
+    regrid_scaled(rng, nodespec)
     for ms in nodespec['modules']:
         for layer in ms['layers']:
             for p in layer['params']:
-                if 'dt' not in p or p.get('constant') or p['attr'] in ms['cfg'] or rng.random() > 0.08:
+                # (a scaled parameter more often than the others: its description is computed - limit / scale, rounded -,
+                # not copied, and whether that computation is right shows only on limits with an inexact quotient)
+                if 'dt' not in p or p.get('constant') or p['attr'] in ms['cfg'] or \
+                        rng.random() > (0.6 if p['dt'][0] == 'scaled' else 0.2):
                     continue
-                if p['dt'][0] in ('floatr', 'intr') and rng.random() < 0.5:
-                    lo, hi = p['dt'][1], p['dt'][2]
-                    ms['cfg'][p['attr']] = {'max': lo + (hi - lo) // 2 if p['dt'][0] == 'intr' else lo + (hi - lo) / 2}
+                over = gen_datatype_cfg(rng, p['dt']) if rng.random() < (0.9 if p['dt'][0] == 'scaled' else 0.7) else None
+                if over:
+                    ms['cfg'][p['attr']] = over
                 else:
                     try:
                         ms['cfg'][p['attr']] = {'constant': c04.mk_dtype(p['dt']).import_value(c04.gen_valid(rng, p['dt']))}
                     except Exception:
                         pass
     return nodespec
+
+
+SCALES = [0.1, 0.1, 0.01, 0.25, 1, 0.001, 0.3, 0.7, 0.05, 0.2]
+
+
+def grid_index(rng, scale, klo, khi, want=None):
+    """a grid index in klo..khi whose float quotient (k*scale)/scale lands exact / below / above k (`want`; None: any)"""
+    for _ in range(60):
+        k = rng.randint(klo, khi)
+        c = quotient_class(k, scale)
+        if c is not None and (want is None or c == want):
+            return k
+    for k in range(klo, khi + 1):      # small ranges: look at every index
+        if khi - klo > 2000:
+            break
+        c = quotient_class(k, scale)
+        if c is not None and (want is None or c == want):
+            return k
+    return None
+
+
+def scaled_limits(rng, scale, klo_range, khi_range):
+    """limits k*scale of a scaled datatype, drawn by QUOTIENT CLASS: for decimal scales the float quotient limit/scale
+    lands exactly on, a hair below or a hair above the whole number it stands for - every way of turning it into the
+    integer of the description must give the same index"""
+    want = lambda: rng.choice([None, 'below', 'below', 'above', 'above', 'exact'])
+    klo = grid_index(rng, scale, *klo_range, want())
+    khi = grid_index(rng, scale, *khi_range, want())
+    if klo is None:
+        klo = grid_index(rng, scale, *klo_range) or 0
+    if khi is None:
+        khi = grid_index(rng, scale, *khi_range) or khi_range[1]
+    return klo, khi
+
+
+def regrid_scaled(rng, nodespec):
+    """the scaled datatypes of the generated classes (c04 draws max from 10 / 100 / 2.5 and min = 0): other scales and
+    limits by quotient class (min <= 0 < max stays, so that the generated defaults and valid values remain valid)"""
+    def walk(spec):
+        if spec[0] == 'scaled' and rng.random() < 0.7:
+            scale = rng.choice(SCALES)
+            klo, khi = scaled_limits(rng, scale, (-40, 0) if rng.random() < 0.5 else (0, 0), (1, rng.choice([12, 120, 3000])))
+            spec[1:4] = [scale, klo * scale, khi * scale]
+        elif spec[0] == 'array':
+            walk(spec[1])
+        elif spec[0] == 'tuple':
+            for x in spec[1]:
+                walk(x)
+        elif spec[0] == 'struct':
+            for _, x in spec[1]:
+                walk(x)
+    for ms in nodespec['modules']:
+        for layer in ms['layers']:
+            for p in layer['params']:
+                if 'dt' in p:
+                    walk(p['dt'])
+            for c in layer['commands']:
+                for key in ('arg', 'res'):
+                    if c.get(key):
+                        walk(c[key])
+
+
+def gen_datatype_cfg(rng, dt):
+    """a configuration entry setting datatype properties of a parameter with the given (class-level) datatype spec"""
+    k = dt[0]
+    over = {}
+    if k == 'scaled':
+        scale, lo, hi = dt[1], dt[2], dt[3]
+        klo, khi = int(round(lo / scale)), int(round(hi / scale))
+        which = rng.choice(['max', 'max', 'min', 'both', 'both'])
+        # narrower or wider than the class says, on the grid, by quotient class
+        nlo, nhi = scaled_limits(rng, scale, (klo - 5, min(klo + 3, 0)), (1, khi + 5))
+        # ... and, less often, OFF the grid (a limit the wire representation cannot express: the description states the
+        # nearest grid value)
+        off = (lambda: rng.choice([0.4, 0.26, -0.3, 0.5, -0.45])) if rng.random() < 0.15 else (lambda: 0)
+        if which in ('max', 'both'):
+            over['max'] = (nhi + off()) * scale
+        if which in ('min', 'both'):
+            over['min'] = (nlo + off()) * scale
+    elif k in ('floatr', 'float'):
+        lo, hi = (dt[1], dt[2]) if k == 'floatr' else (-100.0, 100.0)
+        which = rng.choice(['max', 'min', 'both'])
+        if which in ('max', 'both'):
+            over['max'] = rng.choice([lo + (hi - lo) / 2, lo + (hi - lo) * 0.3, hi + 0.7, lo + 0.1 * 3])
+        if which in ('min', 'both'):
+            over['min'] = rng.choice([lo - 0.3, lo + (hi - lo) * 0.1, lo])
+        if rng.random() < 0.3:
+            over['absolute_resolution'] = rng.choice([0.0, 0.5, 1e-3])
+    elif k in ('intr', 'int'):
+        lo, hi = (dt[1], dt[2]) if k == 'intr' else (-1000, 1000)
+        which = rng.choice(['max', 'min', 'both'])
+        if which in ('max', 'both'):
+            over['max'] = rng.choice([lo + (hi - lo) // 2, hi + 3, hi - 1])
+        if which in ('min', 'both'):
+            over['min'] = rng.choice([lo - 2, lo + 1, lo])
+    elif k == 'string':
+        over['maxchars'] = rng.choice([(dt[2] or 8) + 2, max(dt[1], 1), 5])
+        if rng.random() < 0.3:
+            over['isUTF8'] = True
+    elif k == 'blob':
+        over['maxbytes'] = rng.choice([dt[2] + 2, max(dt[1], 1), 3])
+    elif k == 'array':
+        # (no `minlen`: a parameter without default then starts with a value its own datatype does not export, and the
+        # read of such a parameter is outside C04's step model - see design_notes/C06.md, left open)
+        over['maxlen'] = rng.choice([dt[3] + 1, max(dt[2], 1), dt[3]])
+    if k in ('scaled', 'floatr', 'float', 'intr', 'int') and rng.random() < 0.25:
+        over['unit'] = rng.choice(['K', 'mm/s', '%'])
+    return over
 
 
 def gen_case(seed, big):
@@ -529,13 +893,65 @@ def run_generated(case):
     node, box, classes = c04.build_node(case['nodespec'])
     if node.errors or set(node.secnode.modules) != {ms['name'] for ms in case['nodespec']['modules']}:
         return None
-    return run_node(random.Random(case['seed'] + 1), node, box, case['nodespec'], classes)
+    data = run_node(random.Random(case['seed'] + 1), node, box, case['nodespec'], classes, big=bool(case.get('big')))
+    data['cfgstats'] = cfg_stats(case['nodespec'])
+    return data
 
 
-def evaluate(ctx, res, label, case, data, model, judge):
+DT_PROP_KEYS = ('min', 'max', 'unit', 'absolute_resolution', 'maxchars', 'isUTF8', 'maxbytes', 'maxlen', 'minlen')
+
+
+def cfg_stats(nodespec):
+    """evidence: which datatype properties the configuration sets, on which kind of datatype; for scaled limits the
+    quotient class of the configured limit"""
+    out = []
+    for ms in nodespec['modules']:
+        dts = {p['attr']: p['dt'] for layer in ms['layers'] for p in layer['params'] if 'dt' in p}
+        for attr, over in ms['cfg'].items():
+            dt = dts.get(attr)
+            if dt is None or not isinstance(over, dict):
+                continue
+            for key in over:
+                if key in DT_PROP_KEYS:
+                    out.append('cfg.datatype-property.%s.%s' % (dt[0], key))
+                    if dt[0] == 'scaled' and key in ('min', 'max'):
+                        k = int(round(over[key] / dt[1]))
+                        out.append('cfg.scaled-limit.%s.%s%s' % (key, quotient_class(k, dt[1]) if k * dt[1] == over[key] else 'not-aligned',
+                                                                 '' if k >= 0 else '.negative'))
+        for dt in dts.values():
+            if dt[0] == 'scaled':
+                for key, x in (('min', dt[2]), ('max', dt[3])):
+                    k = int(round(x / dt[1]))
+                    out.append('class.scaled-limit.%s.%s' % (key, quotient_class(k, dt[1]) if k * dt[1] == x else 'not-aligned'))
+    return out
+
+
+def evaluate(ctx, res, label, case, data, model, judge, dtmodel=None):
     rec = data['rec']
-    if 'driver_error' in model or 'driver_error' in judge:
-        raise RuntimeError(f'driver error: {model.get("driver_error")} {judge.get("driver_error")} ({label})')
+    if 'driver_error' in model or 'driver_error' in judge or 'driver_error' in (dtmodel or {}):
+        raise RuntimeError(f'driver error: {model.get("driver_error")} {judge.get("driver_error")} '
+                           f'{(dtmodel or {}).get("driver_error")} ({label})')
+    # datatype correspondence: class + configured limits -> instance datatype -> described datainfo -> verdicts on the
+    # boundary payloads (node's own datatype, client datatype rebuilt from the described datainfo), all derived by the model
+    if ctx.model_ok and dtmodel is not None:
+        for c, m in zip(data.get('dtcases', []), dtmodel['params']):
+            res.count('datatype-correspondence.params')
+            res.count('datatype-correspondence.probes', len(c['probes']))
+            res.count('datatype-correspondence.instance-derived' if c['cls'] is not None else 'datatype-correspondence.instance-as-data')
+            where = '%s:%s' % (c['m'], c['a'])
+            if c['cls'] is not None and m['inst'] != c['inst']:
+                res.disagreements.append({'case': case, 'model': {'instance datatype': m['inst'], 'at': where},
+                                          'impl': {'instance datatype': c['inst'], 'class': c['cls'], 'cfg': c['cfg']}})
+            elif not isinstance(m['datainfo'], dict) or dtcodec.canon(m['datainfo']) != dtcodec.canon(c['described']):
+                res.disagreements.append({'case': case, 'model': {'datainfo': m['datainfo'], 'at': where},
+                                          'impl': {'datainfo': c['described'], 'datatype': c['inst']}})
+            else:
+                for pr, got in zip(c['probes'], m['probes']):
+                    if got != [pr['node'], pr['client']]:
+                        res.disagreements.append({'case': case, 'model': {'node / client verdict': got, 'at': where},
+                                                  'impl': {'node / client verdict': [pr['node'], pr['client']],
+                                                           'payload': pr['payload'], 'datatype': c['inst']}})
+                        break
     exch = model
     # exchange correspondence: the model's reply / driver calls / emitted messages / cache for every request of the sweep
     if ctx.model_ok and data.get('generated'):
@@ -565,6 +981,14 @@ def evaluate(ctx, res, label, case, data, model, judge):
     for m in rec['node']['modules']:
         for row in (m.get('init') or {}).get('cfg', []):
             res.count('cfg.module-property.' + row[0])
+    for key in data.get('cfgstats', []):
+        res.count(key)
+    for d in data['dichecks']:
+        res.count('datainfo-check.client-%s.node-%s' % ('accepts' if d['client'] else 'rejects', 'accepts' if d['node'] else 'rejects'))
+    for st in rec['steps']:
+        if st['req'][0] == 'change' and st.get('client') is not None:
+            res.count('change.client-%s.%s' % ('accepts' if st['client'] else 'rejects',
+                                               'refused' if st['obs']['reply'][0] == 'error' else 'taken'))
     ro = sum(1 for m in data['report1'] for a in m['accs'] if a['readonly'] is True)
     const = sum(1 for m in data['report1'] for a in m['accs'] if a['constant'] is not None)
     res.count('described.readonly', ro)
@@ -591,28 +1015,32 @@ def evaluate(ctx, res, label, case, data, model, judge):
         res.count('interface_class.' + (c['ic'][0] if c['ic'] else 'none'))
         res.count('features.%d' % len(c['features']))
     # whole-module activate probes (not a (module, accessible) pair): judged here only as data for the evidence
-    if judge['bad'] is not None:
-        what, idx, name = judge['bad']
+    seen = set()
+    for what, idx, name in judge.get('bads') or ([judge['bad']] if judge['bad'] is not None else []):
+        if what in seen:       # one report per kind of failure and node
+            continue
+        seen.add(what)
         detail = None
-        if what in ('undescribed-reachable', 'flag-not-honoured', 'constant-not-read', 'command-datainfo-not-honoured', 'other'):
+        kind = what.split(':')[0]
+        if kind in ('undescribed-reachable', 'flag-not-honoured', 'datainfo-not-honoured', 'constant-not-read', 'command-datainfo-not-honoured', 'other'):
             probes = [s for s in rec['steps'] if s['req'][0] != 'read' or not s['req'][2]]
             st = rec['steps'][idx] if idx < len(rec['steps']) else None
             detail = None if st is None else {'req': st['req'], 'reply': st['obs']['reply'], 'calls': st['obs']['calls'],
                                               'pyclass': st.get('pyclass')}
-        elif what == 'undescribed-subscribed':
+        elif kind == 'undescribed-subscribed':
             acts = [a for a in data['activates'] if not a['bare']]
             detail = acts[idx] if idx < len(acts) else None
-        elif what == 'report-not-strict-json':
+        elif kind == 'report-not-strict-json':
             text = data['strict']
             pos = min([text.find(t) for t in ('NaN', 'Infinity') if t in text] or [0]) if text else 0
             detail = 'the report cannot be serialised' if text is None else text[max(0, pos - 120):pos + 40]
-        elif what == 'class-props':
+        elif kind == 'class-props':
             detail = {'described': next((c for c in data['classes'] if c['m'] == name), None),
                       'class chain': next((m.get('mro') for m in rec['node']['modules'] if m['name'] == name), None),
                       'configuration': next(((m.get('init') or {}).get('cfg') for m in rec['node']['modules'] if m['name'] == name), None)}
-        elif what == 'datainfo-disagrees':
+        elif kind == 'datainfo-disagrees':
             detail = data['dichecks'][idx]
-        elif what == 'emitted-not-importable':
+        elif kind == 'emitted-not-importable':
             detail = data['imports'][idx]
         res.violations.append({'sig': 'C06:%s' % what, 'what': f'{label}: {what} at {name}: {json.dumps(detail, default=str)[:400]}',
                                'case': case, 'detail': detail})
@@ -621,11 +1049,14 @@ def evaluate(ctx, res, label, case, data, model, judge):
 def run(ctx):
     res = Result()
     res.rule = ('one evaluation = one node (generated classes + configuration incl. entries for module properties - also the automatic ones - '
-                'and for constant / range of parameters): describe twice around a sweep of change/read/do/activate requests over every '
+                'and for constant / datatype properties of parameters: limits of int / double / scaled - scaled limits on the grid by quotient class and off the grid -, '
+                'lengths, unit, resolution): describe twice around a sweep of change/read/do/activate requests over every '
                 'described and every undescribed name (attribute names, underscore variants, old names of renamed '
                 'accessibles, accessibles of unexported modules, unknown modules; do with no payload, empty JSON values, junk, valid and boundary arguments), '
                 'client datatypes rebuilt from the report '
-                'against the node on generated payloads, emitted values against the described datainfo; non-trivial = the '
+                'against the node on generated payloads and on the boundary catalogue of every described datainfo (at / next to every limit, wrong lengths and arities; '
+                'also sent as change requests), emitted values against the described datainfo; datatype stream: class datatype + configured limits -> instance datatype '
+                '-> described datainfo -> verdicts, derived by the model; non-trivial = the '
                 'node has described, undescribed and read-only accessibles')
     big = ctx.tier == 'thorough' or ctx.escalated
     rng = ctx.rng
@@ -634,7 +1065,7 @@ def run(ctx):
     if os.path.isdir(cdir):
         for fn in sorted(os.listdir(cdir)):
             todo.append(dict(json.load(open(os.path.join(cdir, fn)))['case'], corpus=fn))
-    for _ in range(ctx.budget(220, 3000)):
+    for _ in range(ctx.budget(220, 2400)):
         todo.append(gen_case(rng.randrange(1 << 40), big))
     items = []
     for case in todo:
@@ -654,13 +1085,15 @@ def run(ctx):
         for i in range(0, len(reqs), 40):
             answers += ctx.driver.batch(reqs[i:i + 40])
         for j, (label, case, data) in enumerate(items):
-            evaluate(ctx, res, label, case, data, answers[2 * j], answers[2 * j + 1])
+            evaluate(ctx, res, label, case, data, answers[3 * j], answers[3 * j + 1], answers[3 * j + 2])
 
     # phase 1: generated nodes (fake drivers).  phase 2: the shipped configurations, whose drivers are REAL code: they are
     # probed only with requests the node must refuse before any driver is involved, and only when phase 1 found the tree
     # honouring its reports — a tree that already executes what it should refuse is not let loose on real drivers
     judge_items(items)
-    if res.violations:
+    from check import load_known
+    recorded = {f['signature'] for f in load_known(PID).get('findings', [])}
+    if any(v['sig'] not in recorded for v in res.violations):      # (a recorded finding does not keep the real drivers away)
         res.notes.append('shipped configurations NOT run: the generated nodes already show violations')
         return res
     nodes, skipped = shipped_nodes(ctx)
@@ -695,7 +1128,7 @@ def replay(ctx, rp):
     print('model report equal:', same)
     print('judge:', a[1])
     res = Result()
-    evaluate(ctx, res, 'replay', case, data, a[0], a[1])
+    evaluate(ctx, res, 'replay', case, data, a[0], a[1], a[2])
     for d in res.disagreements:
         print('model and implementation disagree:', json.dumps(d, default=str)[:600])
         same = False
